@@ -163,6 +163,10 @@ func tailError(name string) error {
 		return io.EOF
 	case "ueof":
 		return io.ErrUnexpectedEOF
+	case "weof":
+		// the end of the body reported by something that adds context to it (middleware, a
+		// transport wrapper): an error that wraps io.EOF without being it
+		return fmt.Errorf("request body: %w", io.EOF)
 	case "err":
 		return errTransport
 	}
